@@ -434,8 +434,11 @@ fn oracle(sc: &Scenario, obs: &[RunObs]) -> Option<Violation> {
             }
             _ => {}
         }
-        // O5 termination: bounded by the transfer timeout per performed transfer
-        let budget = (o.performed as u64 + 1) * sc.cfg.timeout_ms * 1_000_000 + 50_000_000;
+        // O5 termination, generously: the property promises that rink still starts,
+        // not a deadline; what must not happen is a start-up that waits far beyond
+        // the configured transfer timeout (a transfer without any timeout is
+        // reported as "hang" above).
+        let budget = (o.performed as u64 + 1) * sc.cfg.timeout_ms * 1_000_000 + 30_000_000_000;
         if o.end_ns.saturating_sub(o.start_ns) > budget && !matches!(o.result, ProcResult::Crashed) {
             return Some(Violation {
                 clause: "slow-start".into(),
@@ -499,8 +502,15 @@ fn oracle(sc: &Scenario, obs: &[RunObs]) -> Option<Violation> {
                         }
                     }
                     Err(e) => {
-                        // Failing is only legitimate when there is nothing to fall back to.
-                        if o.before.is_some() && !o.faults_fired_read_side && !sc.cfg.no_cache_dir {
+                        // Failing is only legitimate when there is nothing readable to
+                        // fall back to (an unreadable cache may be refused: then only
+                        // "still starts" applies).
+                        let readable = o
+                            .before
+                            .as_ref()
+                            .map(|b| versions(sc).into_iter().any(|v| *b == document(v, sc.doc_size)))
+                            .unwrap_or(false);
+                        if readable && !o.faults_fired_read_side && !sc.cfg.no_cache_dir {
                             return Some(Violation {
                                 clause: "no-stale-fallback".into(),
                                 detail: format!(
